@@ -1071,6 +1071,12 @@ class Guards:
                     out.append((d, e, ("not", [x[0] for x in t["targets"]])))
                 else:
                     out.append((d, e, v))
+            elif len(taken) > 1 and "otherwise" in taken and len({tb for _, tb in edges}) > 1 and \
+                    len({tb for (v_, tb) in edges if v_ in taken}) == 1:
+                # a listed value and the otherwise edge lead to the same block (`match x { A => .., _ => .. }` written out as
+                # `[A -> a, B -> b] else b`): the block is entered exactly when the value is none of the others
+                e = body.expr_of_operand(t["op"])
+                out.append((d, e, ("not", [x[0] for x in t["targets"] if x[0] not in taken])))
         return out
 
     def _reach_without_edge(self, d, tb, unwind):
